@@ -1,4 +1,39 @@
-(* FloatRT.v — JSON round trip of documents that contain floating-point values. *)
+(* FloatRT.v — JSON round trip of documents that contain floating-point values (C07 / C02, float clause).
+
+   Configuration: use_double = true (JsonFloat = double).  [sfr] = [SF2R radix2], [p10 e] = 10^e.
+
+   Part A  decompose_full_rel: PrintErr.decompose_full_gen with its case distinction kept — the printed
+           parts are within 10^-P * x of x (relative) unless x > 9e-6 (no exponent printed); needed to
+           place the printed value in the window [1e-300, 1e300] of NumValue's theorems.
+   Part B  the text printed from the parts is a literal [NumValue.lit] (body_text_nlit, parts_wf_lit:
+           well-formed, same exact value), a number of the RFC grammar (parts_jnumber) and at most
+           24 bytes long (parts_lit_length).
+   Part C  write_float_lit: writeFloat of a finite non-zero value as such a literal.
+   Part D  one leaf: leaf_roundtrip_gen (P decimal places), and
+             double_roundtrip_close   x binary64, 1e-299 <= |x| <= 1e299, printed by write_f64:
+                 the text is a [jnumber] of <= 24 bytes and parse_number returns v with  close64 x v:
+                   JInt z     |z - x| <= 1e-9    * max(1,|x|)      (3.0 -> "3" -> 3)
+                   JFloat r   |r - x| <= 6.11e-7 * max(1,|x|)      (0.1 -> "0.1" -> (float)0.1)
+                   JDouble r  |r - x| <= 1.1e-9  * max(1,|x|)
+             float_roundtrip_close (_any: no window needed)   x binary32, printed by write_f32: close32 x v:
+                   JInt 1e-6, JFloat 1.61e-6, JDouble 1.1e-6  (times max(1,|x|))
+             zero_roundtrip: +0 and -0 are printed "0" and come back as the integer 0.
+           DEVIATIONS from the requested statements
+             * the tolerance 1.1e-9 for a binary32 result is FALSE (Example double_roundtrip_1e9_false:
+               the double 0.1 is printed "0.1", read back as the binary32 13421773*2^-27, 1.49e-9 away;
+               1e21 -> "1e21" -> binary32, relative error 2e-8): literals of at most seven digits are
+               returned as binary32 (C12's 1e-6 clause), hence 1e-9 + 6e-7*(1+1e-6) <= 6.11e-7.
+               For the same reason the binary32 tolerance is 1e-6 + 6e-7*(1+1e-6) <= 1.61e-6 instead of
+               1.1e-6 (no counterexample known for 1.1e-6; 6e-7 is the constant of
+               NumValue.literal_accuracy_double_cfg_tight).
+             * window of x shrunk from [1e-300, 1e300] to [1e-299, 1e299] (the printed value must itself
+               lie in [1e-300, 1e300] for NumValue's theorems).
+   Part E  documents: [close v w] (same shape / keys / strings / integers / booleans, float leaves related
+           by close32 / close64), [ser_ok_floats v],
+             ser_parse_roundtrip_close, json_roundtrip_close            (compact serializer)
+             pretty_parse_roundtrip_close, json_pretty_roundtrip_close  (pretty serializer)
+           close_nofloat (on float-free documents close is equality), nofloat_okf, and a sample document.
+   Nothing is assumed beyond what Coq's Reals bring (through Flocq); nothing is declared here. *)
 From Coq Require Import ZArith NArith Reals Lia Lra List Bool.
 From Flocq Require Import Core BinarySingleNaN Relative.
 From Coq Require Import Floats.SpecFloat.
@@ -513,4 +548,528 @@ Proof.
     + left. exact (valid_lt_max F32 x good_F32 Vx).
     + rewrite <- (IZR_Zpower radix2) by lia. rewrite <- PrintErr.IZR_pow10 by lia.
       apply IZR_le. vm_compute. discriminate.
+Qed.
+
+(* --- zeros: both print as "0" and come back as the integer 0 --- *)
+Theorem zero_roundtrip : forall c s, use_double c = true ->
+  write_f64 c (S754_zero s) = [48%N] /\ write_f32 c (S754_zero s) = [48%N] /\
+  jv_of_number c (parse_number c [48%N]) = Some (JInt 0) /\ jnumber [48%N].
+Proof.
+  intros [du ec en ei ud] s UD. cbn [use_double] in UD. subst ud.
+  split; [destruct s, en, ei; vm_compute; reflexivity|].
+  split; [destruct s, en, ei; vm_compute; reflexivity|].
+  split; [change [48%N] with (write_int 0); rewrite parse_write_int by (change (2 ^ 63) with 9223372036854775808; change (2 ^ 64) with 18446744073709551616; lia); reflexivity|].
+  exact (jnum false [48%N] None None eq_refl ltac:(discriminate) ltac:(discriminate) 101%N (or_introl eq_refl)).
+Qed.
+
+Lemma close64_zero : forall s, close64 (S754_zero s) (JInt 0).
+Proof.
+  intros s. unfold close64. cbn [leaf_close SF2R]. rewrite Rminus_0_r, Rabs_R0.
+  pose proof (Rmax_l 1 0). lra.
+Qed.
+Lemma close32_zero : forall s, close32 (S754_zero s) (JInt 0).
+Proof.
+  intros s. unfold close32. cbn [leaf_close SF2R]. rewrite Rminus_0_r, Rabs_R0.
+  pose proof (Rmax_l 1 0). lra.
+Qed.
+
+(* --- the tolerance 1.1e-9 requested for every result is false: the double nearest to 0.1 is
+       printed "0.1", which parse_number returns as the binary32 nearest to 0.1 --- *)
+Example double_roundtrip_1e9_false :
+  let x := sf_of_bits F64 0x3FB999999999999A in
+  let r := S754_finite false 13421773 (-27) in
+  write_f64 default_cfg x = [48; 46; 49]%N /\
+  jv_of_number default_cfg (parse_number default_cfg (write_f64 default_cfg x)) = Some (JFloat r) /\
+  (1.4e-9 * Rmax 1 (Rabs (sfr x)) < Rabs (sfr r - sfr x))%R.
+Proof.
+  cbv zeta. split; [vm_compute; reflexivity|]. split; [vm_compute; reflexivity|].
+  assert (E : sf_of_bits F64 0x3FB999999999999A = S754_finite false 7205759403792794 (-56))
+    by (vm_compute; reflexivity).
+  rewrite E.
+  pose proof (num_den_spec 7205759403792794 (-56)) as S1.
+  destruct (num_den 7205759403792794 (-56)) as [N1 D1] eqn:ND1. destruct S1 as [_ S1].
+  assert (N1 = 7205759403792794 /\ D1 = 72057594037927936) as [-> ->]
+    by (vm_compute in ND1; inversion ND1; split; reflexivity).
+  pose proof (num_den_spec 13421773 (-27)) as S2.
+  destruct (num_den 13421773 (-27)) as [N2 D2] eqn:ND2. destruct S2 as [_ S2].
+  assert (N2 = 13421773 /\ D2 = 134217728) as [-> ->]
+    by (vm_compute in ND2; inversion ND2; split; reflexivity).
+  rewrite S1, S2.
+  rewrite (Rabs_pos_eq (7205759403792794 / 72057594037927936)) by lra.
+  rewrite Rmax_left by lra. rewrite Rabs_pos_eq by lra. lra.
+Qed.
+
+(* ========================================================================================== *)
+(* Part E — documents                                                                          *)
+(* ========================================================================================== *)
+Local Open Scope N_scope.
+
+(* same shape, same keys / strings / integers / booleans; a floating-point leaf may come back as
+   an integer, a binary32 or a binary64 value close to it *)
+Inductive close : jv -> jv -> Prop :=
+| cl_null : close JNull JNull
+| cl_bool : forall b, close (JBool b) (JBool b)
+| cl_int : forall z, close (JInt z) (JInt z)
+| cl_str : forall s, close (JStr s) (JStr s)
+| cl_float : forall x w, close32 x w -> close (JFloat x) w
+| cl_double : forall x w, close64 x w -> close (JDouble x) w
+| cl_arr : forall l m, Forall2 close l m -> close (JArr l) (JArr m)
+| cl_obj : forall l m,
+    Forall2 (fun a b => fst b = fst a /\ close (snd a) (snd b)) l m -> close (JObj l) (JObj m).
+
+(* documents whose floating-point leaves are finite, doubles being zero or within
+   [1e-299, 1e299]; no raw values, integers in range, object keys pairwise distinct *)
+Fixpoint ser_ok_floats (v : jv) : Prop :=
+  match v with
+  | JNull | JBool _ => True
+  | JInt z => (- 2 ^ 63 <= z < 2 ^ 64)%Z
+  | JStr s => bytes_ok s
+  | JFloat x => valid F32 x /\ FloatModel.is_finite x = true
+  | JDouble x => valid F64 x /\ FloatModel.is_finite x = true /\
+                 (sfr x = 0%R \/ (p10 (-299) <= Rabs (sfr x) <= p10 299)%R)
+  | JRaw _ => False
+  | JArr l => fold_right (fun x P => ser_ok_floats x /\ P) True l
+  | JObj l => NoDup (map fst l) /\
+              fold_right (fun kv P => (bytes_ok (fst kv) /\ ser_ok_floats (snd kv)) /\ P) True l
+  end.
+
+Lemma okf_arr : forall l, ser_ok_floats (JArr l) <-> Forall ser_ok_floats l.
+Proof. intro l. cbn [ser_ok_floats]. apply fold_and_Forall. Qed.
+
+Lemma okf_obj : forall l, ser_ok_floats (JObj l) <->
+  NoDup (map fst l) /\ Forall (fun kv => bytes_ok (fst kv) /\ ser_ok_floats (snd kv)) l.
+Proof.
+  intro l. cbn [ser_ok_floats].
+  rewrite (fold_and_Forall _ (fun kv => bytes_ok (fst kv) /\ ser_ok_floats (snd kv))). tauto.
+Qed.
+
+Lemma nofloat_okf : forall v, nofloat v -> ser_ok_floats v.
+Proof.
+  fix IH 1. intros v. destruct v as [|b|z|f|f|s|r|l|l]; cbn [nofloat ser_ok_floats]; auto; try contradiction.
+  - induction l as [|x l IHl]; cbn [fold_right]; [auto|]. intros [A B]. split; [apply IH; exact A | apply IHl; exact B].
+  - intros [ND H]. split; [exact ND|]. clear ND.
+    induction l as [|x l IHl]; cbn [fold_right] in *; [auto|]. destruct H as [[A1 A2] B].
+    split; [split; [exact A1 | apply IH; exact A2] | apply IHl; exact B].
+Qed.
+
+(* ---- a floating-point leaf ---- *)
+Lemma finite_zero_form : forall x, FloatModel.is_finite x = true -> sfr x = 0%R ->
+  exists s, x = S754_zero s.
+Proof.
+  intros [s|s| |s m e] F Z; try discriminate F; [eauto|]. exfalso.
+  cbn [SF2R] in Z. apply eq_0_F2R in Z. destruct s; discriminate Z.
+Qed.
+
+Lemma case_number_text : forall cf d t w, jnumber t -> (length t <= 63)%nat ->
+  jv_of_number cf (parse_number cf t) = Some w -> PvH cf d t w.
+Proof.
+  intros cf d t w J L E. split.
+  - apply case_num; [exact J | split; assumption].
+  - destruct (jnumber_chars cf t J) as [_ (c & r & Et & NS)].
+    exists c, r. split; [exact Et | unfold vstart; tauto].
+Qed.
+
+Lemma case_double : forall cf, use_double cf = true -> forall d x, ser_ok_floats (JDouble x) ->
+  exists w, close64 x w /\ PvH cf d (write_f64 cf x) w.
+Proof.
+  intros cf UD d x [Vx [Fx [Z|W]]].
+  - destruct (finite_zero_form x Fx Z) as [s ->].
+    destruct (zero_roundtrip cf s UD) as [T [_ [P J]]].
+    exists (JInt 0). split; [apply close64_zero|]. rewrite T.
+    apply case_number_text; [exact J | cbn; lia | exact P].
+  - destruct (double_roundtrip_close cf x UD Vx Fx W) as [J [L [w [P C]]]].
+    exists w. split; [exact C|]. apply case_number_text; [exact J | lia | exact P].
+Qed.
+
+Lemma case_float32 : forall cf, use_double cf = true -> forall d x, ser_ok_floats (JFloat x) ->
+  exists w, close32 x w /\ PvH cf d (write_f32 cf x) w.
+Proof.
+  intros cf UD d x [Vx Fx].
+  destruct (Req_dec (sfr x) 0) as [Z|NZ].
+  - destruct (finite_zero_form x Fx Z) as [s ->].
+    destruct (zero_roundtrip cf s UD) as [_ [T [P J]]].
+    exists (JInt 0). split; [apply close32_zero|]. rewrite T.
+    apply case_number_text; [exact J | cbn; lia | exact P].
+  - pose proof (f32_in_window x Vx Fx NZ) as W.
+    destruct (float_roundtrip_close cf x UD Vx Fx W) as [J [L [w [P C]]]].
+    exists w. split; [exact C|]. apply case_number_text; [exact J | lia | exact P].
+Qed.
+
+Lemma ser_scalar_close : forall cf, decode_unicode cf = true -> use_double cf = true -> forall d v,
+  match v with JArr _ | JObj _ => False | _ => True end -> ser_ok_floats v ->
+  exists w, close v w /\ PvH cf d (ser cf v) w.
+Proof.
+  intros cf DU UD d v SC OK. destruct v as [|b|z|f|f|s|r|l|l]; try contradiction.
+  - exists JNull. split; [constructor | apply ser_scalar_cases; auto].
+  - exists (JBool b). split; [constructor | apply ser_scalar_cases; auto].
+  - exists (JInt z). split; [constructor | apply ser_scalar_cases; auto].
+  - destruct (case_float32 cf UD d f OK) as [w [C P]]. exists w. split; [constructor; exact C | exact P].
+  - destruct (case_double cf UD d f OK) as [w [C P]]. exists w. split; [constructor; exact C | exact P].
+  - exists (JStr s). split; [constructor | apply ser_scalar_cases; auto].
+Qed.
+
+(* ---- containers whose members come back as other values ---- *)
+Lemma Forall_exists_Forall2 : forall (A B : Type) (R : A -> B -> Prop) l,
+  Forall (fun a => exists b, R a b) l -> exists m, Forall2 R l m.
+Proof.
+  intros A B R l. induction l as [|a l IH]; intro H.
+  - exists []. constructor.
+  - inversion H as [|? ? [b Hb] H']; subst. destruct (IH H') as [m Hm].
+    exists (b :: m). constructor; assumption.
+Qed.
+
+Lemma Forall2_imp : forall (A B : Type) (R1 R2 : A -> B -> Prop),
+  (forall a b, R1 a b -> R2 a b) -> forall l m, Forall2 R1 l m -> Forall2 R2 l m.
+Proof. intros A B R1 R2 H l m F. induction F; constructor; auto. Qed.
+
+Lemma Forall2_left : forall (A B : Type) (P : A -> Prop) (R : A -> B -> Prop) l m,
+  (forall a b, R a b -> P a) -> Forall2 R l m -> Forall P l.
+Proof. intros A B P R l m H F. induction F; constructor; eauto. Qed.
+
+Lemma Pe_join2 : forall cf d (txt : jv -> bytes) w0 wi wz, ws w0 -> ws wi -> ws wz ->
+  forall l m, l <> [] -> Forall2 (fun v w => Pv cf d (txt v) w) l m ->
+  Pe cf d (w0 ++ join ([44] ++ w0) (map (fun v => wi ++ txt v) l) ++ wz) m.
+Proof.
+  intros cf d txt w0 wi wz W0 Wi Wz l. induction l as [|v l IH]; intros m NE FA; [congruence|].
+  inversion FA as [|? w ? m' Hv FA']; subst.
+  destruct l as [|v' l].
+  - inversion FA'; subst. cbn [map join].
+    replace (w0 ++ (wi ++ txt v) ++ wz) with ((w0 ++ wi) ++ txt v ++ wz)
+      by (rewrite <- !app_assoc; reflexivity).
+    apply case_e_one; auto. apply ws_app; assumption.
+  - cbn [map]. rewrite join_cons2.
+    change ((wi ++ txt v') :: map (fun v => wi ++ txt v) l) with (map (fun v => wi ++ txt v) (v' :: l)).
+    set (J := join ([44] ++ w0) (map (fun v => wi ++ txt v) (v' :: l))) in *.
+    replace (w0 ++ ((wi ++ txt v) ++ ([44] ++ w0) ++ J) ++ wz)
+      with ((w0 ++ wi) ++ txt v ++ [] ++ [44] ++ (w0 ++ J ++ wz))
+      by (rewrite <- !app_assoc; reflexivity).
+    apply case_e_cons; auto.
+    + apply ws_app; assumption.
+    + constructor.
+    + apply IH; [discriminate|exact FA'].
+Qed.
+
+Lemma PvH_arr2 : forall cf d (txt : jv -> bytes) w0 wi wz, ws w0 -> ws wi -> ws wz ->
+  forall l m, l <> [] -> Forall2 (fun v w => PvH cf d (txt v) w) l m ->
+  PvH cf (S d) ([91] ++ (w0 ++ join ([44] ++ w0) (map (fun v => wi ++ txt v) l) ++ wz) ++ [93]) (JArr m).
+Proof.
+  intros cf d txt w0 wi wz W0 Wi Wz l m NE FA.
+  split; [|eexists _, _; split; [reflexivity|unfold vstart; tauto]].
+  assert (FA1 : Forall2 (fun v w => Pv cf d (txt v) w) l m).
+  { revert FA. apply Forall2_imp. intros v w [H _]. exact H. }
+  assert (FA2 : Forall (fun v => exists c r, txt v = c :: r /\ vstart c) l).
+  { apply (Forall2_left _ _ _ _ l m) with (2 := FA). intros v w [_ H]. exact H. }
+  destruct (arr_text_head txt w0 wi wz ([44] ++ w0) l NE FA2) as (c & r & E & V).
+  apply (case_arr_head cf d _ m (w0 ++ wi) c r); auto.
+  - apply ws_app; assumption.
+  - apply Pe_join2; assumption.
+Qed.
+
+Lemma Pm_join2 : forall cf, decode_unicode cf = true ->
+  forall d (txt : jv -> bytes) w0 wi w3 wz, ws w0 -> ws wi -> ws w3 -> ws wz ->
+  forall l m, l <> [] ->
+    Forall2 (fun kv kw => fst kw = fst kv /\ bytes_ok (fst kv) /\ Pv cf d (txt (snd kv)) (snd kw)) l m ->
+    Pm cf d (w0 ++ join ([44] ++ w0)
+                     (map (fun kv => wi ++ write_string (fst kv) ++ [58] ++ w3 ++ txt (snd kv)) l) ++ wz) m.
+Proof.
+  intros cf DU d txt w0 wi w3 wz W0 Wi W3 Wz l. induction l as [|kv l IH]; intros m NE FA; [congruence|].
+  inversion FA as [|? kw ? m' [Ek [Bk Hv]] FA']; subst.
+  destruct kv as [k v]. destruct kw as [k' w]. cbn [fst snd] in Ek, Bk, Hv. subst k'.
+  destruct l as [|kv' l].
+  - inversion FA'; subst. cbn [map join fst snd].
+    replace (w0 ++ (wi ++ write_string k ++ [58] ++ w3 ++ txt v) ++ wz)
+      with ((w0 ++ wi) ++ write_string k ++ [] ++ [58] ++ w3 ++ txt v ++ wz)
+      by (rewrite <- !app_assoc; reflexivity).
+    apply case_m_one_written; auto; try constructor. apply ws_app; assumption.
+  - cbn [map]. rewrite join_cons2. cbn [fst snd].
+    change ((wi ++ write_string (fst kv') ++ [58] ++ w3 ++ txt (snd kv')) ::
+            map (fun kv => wi ++ write_string (fst kv) ++ [58] ++ w3 ++ txt (snd kv)) l)
+      with (map (fun kv => wi ++ write_string (fst kv) ++ [58] ++ w3 ++ txt (snd kv)) (kv' :: l)).
+    set (J := join ([44] ++ w0)
+                (map (fun kv => wi ++ write_string (fst kv) ++ [58] ++ w3 ++ txt (snd kv)) (kv' :: l))) in *.
+    replace (w0 ++ ((wi ++ write_string k ++ [58] ++ w3 ++ txt v) ++ ([44] ++ w0) ++ J) ++ wz)
+      with ((w0 ++ wi) ++ write_string k ++ [] ++ [58] ++ w3 ++ txt v ++ [] ++ [44] ++ (w0 ++ J ++ wz))
+      by (rewrite <- !app_assoc; reflexivity).
+    apply case_m_cons_written; auto; try constructor.
+    + apply ws_app; assumption.
+    + apply IH; [discriminate|exact FA'].
+Qed.
+
+Lemma Forall2_keys : forall (P : jv -> jv -> Prop) (l m : list (bytes * jv)),
+  Forall2 (fun kv kw => fst kw = fst kv /\ P (snd kv) (snd kw)) l m -> map fst m = map fst l.
+Proof.
+  intros P l m F. induction F as [|a b l m [E _] _ IH]; [reflexivity|].
+  cbn [map]. rewrite E, IH. reflexivity.
+Qed.
+
+Lemma PvH_obj2 : forall cf, decode_unicode cf = true ->
+  forall d (txt : jv -> bytes) w0 wi w3 wz, ws w0 -> ws wi -> ws w3 -> ws wz ->
+  forall l m, l <> [] -> NoDup (map fst l) ->
+    Forall2 (fun kv kw => fst kw = fst kv /\ bytes_ok (fst kv) /\ PvH cf d (txt (snd kv)) (snd kw)) l m ->
+    PvH cf (S d)
+      ([123] ++ (w0 ++ join ([44] ++ w0)
+                        (map (fun kv => wi ++ write_string (fst kv) ++ [58] ++ w3 ++ txt (snd kv)) l) ++ wz)
+             ++ [125]) (JObj m).
+Proof.
+  intros cf DU d txt w0 wi w3 wz W0 Wi W3 Wz l m NE ND FA.
+  split; [|eexists _, _; split; [reflexivity|unfold vstart; tauto]].
+  assert (FA1 : Forall2 (fun kv kw => fst kw = fst kv /\ bytes_ok (fst kv) /\
+                                      Pv cf d (txt (snd kv)) (snd kw)) l m).
+  { revert FA. apply Forall2_imp. intros kv kw [E [B [H _]]]. auto. }
+  assert (KE : map fst m = map fst l).
+  { apply (Forall2_keys (fun _ _ => True)). revert FA. apply Forall2_imp. intros kv kw [E _]. auto. }
+  destruct (obj_text_head (fun kv => [58] ++ w3 ++ txt (snd kv)) w0 wi wz ([44] ++ w0) l NE) as (r & E).
+  replace (JObj m) with (JObj (obj_den m []))
+    by (rewrite obj_den_nodup; [reflexivity|cbn [map app]; rewrite KE; exact ND]).
+  apply (case_obj_head cf d _ m (w0 ++ wi) r); auto.
+  - apply ws_app; assumption.
+  - apply Pm_join2; assumption.
+Qed.
+
+(* ---- the compact serializer ---- *)
+Lemma ser_PvH_close : forall cf, decode_unicode cf = true -> use_double cf = true ->
+  forall d v, (nesting v <= d)%nat -> ser_ok_floats v ->
+  exists w, close v w /\ PvH cf d (ser cf v) w.
+Proof.
+  intros cf DU UD. induction d as [|d IH]; intros v HN OK.
+  - destruct v; try (apply ser_scalar_close; auto; exact I); cbn [nesting] in HN; lia.
+  - destruct v as [|b|z|f|f|s|r|l|l]; try (apply ser_scalar_close; auto; exact I).
+    + (* array *)
+      destruct l as [|x l'].
+      * exists (JArr []). split; [constructor; constructor|].
+        split; [exact (case_arr_empty cf d [] ws_nil)|].
+        eexists _, _. split; [reflexivity|unfold vstart; tauto].
+      * apply okf_arr in OK. pose proof (nesting_arr_inv _ _ HN) as HL.
+        assert (FA : Forall (fun v => exists w, close v w /\ PvH cf d (ser cf v) w) (x :: l')).
+        { apply (Forall_and2 _ _ _ _ _ (fun v A B => IH v A B) HL OK). }
+        destruct (Forall_exists_Forall2 _ _ _ _ FA) as [m FM].
+        exists (JArr m). split.
+        { constructor. revert FM. apply Forall2_imp. intros a b [H _]. exact H. }
+        assert (FP : Forall2 (fun v w => PvH cf d (ser cf v) w) (x :: l') m).
+        { revert FM. apply Forall2_imp. intros a b [_ H]. exact H. }
+        pose proof (PvH_arr2 cf d (ser cf) [] [] [] ws_nil ws_nil ws_nil (x :: l') m ltac:(discriminate) FP) as H.
+        assert (E : [91] ++ ([] ++ join ([44] ++ []) (map (fun v => [] ++ ser cf v) (x :: l')) ++ []) ++ [93]
+                    = ser cf (JArr (x :: l'))) by (rewrite app_nil_r; reflexivity).
+        rewrite E in H. exact H.
+    + (* object *)
+      destruct l as [|x l'].
+      * exists (JObj []). split; [constructor; constructor|].
+        split; [exact (case_obj_empty cf d [] ws_nil)|].
+        eexists _, _. split; [reflexivity|unfold vstart; tauto].
+      * apply okf_obj in OK. destruct OK as [ND OK].
+        pose proof (nesting_obj_inv _ _ HN) as HL.
+        assert (FA : Forall (fun kv => exists kw, fst kw = fst kv /\ bytes_ok (fst kv) /\
+                               close (snd kv) (snd kw) /\ PvH cf d (ser cf (snd kv)) (snd kw)) (x :: l')).
+        { apply (Forall_and2 _ _ _ _ _ (fun kv A B =>
+             match IH (snd kv) A (proj2 B) with
+             | ex_intro _ w (conj C P) => ex_intro _ (fst kv, w) (conj eq_refl (conj (proj1 B) (conj C P)))
+             end) HL OK). }
+        destruct (Forall_exists_Forall2 _ _ _ _ FA) as [m FM].
+        exists (JObj m). split.
+        { constructor. revert FM. apply Forall2_imp. intros a b [E [_ [H _]]]. auto. }
+        assert (FP : Forall2 (fun kv kw => fst kw = fst kv /\ bytes_ok (fst kv) /\
+                                PvH cf d (ser cf (snd kv)) (snd kw)) (x :: l') m).
+        { revert FM. apply Forall2_imp. intros a b [E [B [_ H]]]. auto. }
+        pose proof (PvH_obj2 cf DU d (ser cf) [] [] [] [] ws_nil ws_nil ws_nil ws_nil (x :: l') m
+                      ltac:(discriminate) ND FP) as H.
+        assert (E : [123] ++ ([] ++ join ([44] ++ [])
+                     (map (fun kv => [] ++ write_string (fst kv) ++ [58] ++ [] ++ ser cf (snd kv)) (x :: l')) ++ [])
+                     ++ [125]
+                    = ser cf (JObj (x :: l'))) by (rewrite app_nil_r; reflexivity).
+        rewrite E in H. exact H.
+Qed.
+
+Theorem ser_parse_roundtrip_close : forall cf, decode_unicode cf = true -> use_double cf = true ->
+  forall v, ser_ok_floats v -> forall L fuel s rest,
+    (nesting v <= L)%nat -> good s -> stream s = ser cf v ++ rest -> delimiter cf rest ->
+    (length (ser cf v ++ rest) < fuel)%nat ->
+    exists w s', parse_variant cf fuel L None s = (Ok, w, s') /\ post s' rest /\ close v w.
+Proof.
+  intros cf DU UD v OK L fuel s rest HN G S D LF.
+  destruct (ser_PvH_close cf DU UD (nesting v) v (le_n _) OK) as [w [C [H _]]].
+  destruct (H L fuel s [] rest ws_nil HN G S D LF) as (s' & E & P & _).
+  exists w, s'. auto.
+Qed.
+
+Theorem json_roundtrip_close : forall cf, decode_unicode cf = true -> use_double cf = true ->
+  forall v, ser_ok_floats v -> forall L, (nesting v <= L)%nat ->
+  exists w, j_err (json_run cf None L (ser cf v)) = Ok /\
+            j_doc (json_run cf None L (ser cf v)) = w /\ close v w.
+Proof.
+  intros cf DU UD v OK L HN.
+  destruct (ser_PvH_close cf DU UD (nesting v) v (le_n _) OK) as [w [C [H _]]].
+  destruct (json_run_of_Pv cf _ _ _ H L HN) as [E1 E2].
+  exists w. auto.
+Qed.
+
+(* ---- the pretty printer: same statement (the extra bytes are whitespace) ---- *)
+Lemma ser_pretty_PvH_close : forall cf, decode_unicode cf = true -> use_double cf = true ->
+  forall d v nest, (nesting v <= d)%nat -> ser_ok_floats v ->
+  exists w, close v w /\ PvH cf d (ser_pretty cf nest v) w.
+Proof.
+  intros cf DU UD. induction d as [|d IH]; intros v nest HN OK.
+  - destruct v; try (rewrite ser_pretty_scalar by exact I; apply ser_scalar_close; auto; exact I);
+      cbn [nesting] in HN; lia.
+  - destruct v as [|b|z|f|f|s|r|l|l];
+      try (rewrite ser_pretty_scalar by exact I; apply ser_scalar_close; auto; exact I).
+    + (* array *)
+      destruct l as [|x l'].
+      * exists (JArr []). split; [constructor; constructor|].
+        split; [exact (case_arr_empty cf d [] ws_nil)|].
+        eexists _, _. split; [reflexivity|unfold vstart; tauto].
+      * apply okf_arr in OK. pose proof (nesting_arr_inv _ _ HN) as HL.
+        assert (FA : Forall (fun v => exists w, close v w /\ PvH cf d (ser_pretty cf (nest + 1) v) w) (x :: l')).
+        { apply (Forall_and2 _ _ _ _ _ (fun v A B => IH v (nest + 1)%Z A B) HL OK). }
+        destruct (Forall_exists_Forall2 _ _ _ _ FA) as [m FM].
+        exists (JArr m). split.
+        { constructor. revert FM. apply Forall2_imp. intros a b [H _]. exact H. }
+        assert (FP : Forall2 (fun v w => PvH cf d (ser_pretty cf (nest + 1) v) w) (x :: l') m).
+        { revert FM. apply Forall2_imp. intros a b [_ H]. exact H. }
+        pose proof (PvH_arr2 cf d (ser_pretty cf (nest + 1)) crlf (indent (nest + 1)) (crlf ++ indent nest)
+                      ws_crlf (ws_indent _) (ws_app _ _ ws_crlf (ws_indent _))
+                      (x :: l') m ltac:(discriminate) FP) as H.
+        assert (E : [91] ++ (crlf ++ join ([44] ++ crlf)
+                       (map (fun v => indent (nest + 1) ++ ser_pretty cf (nest + 1) v) (x :: l'))
+                       ++ crlf ++ indent nest) ++ [93]
+                    = ser_pretty cf nest (JArr (x :: l'))).
+        { change (ser_pretty cf nest (JArr (x :: l'))) with
+            ([91] ++ crlf ++ join ([44] ++ crlf)
+               (map (fun v => indent (nest + 1) ++ ser_pretty cf (nest + 1) v) (x :: l'))
+               ++ crlf ++ indent nest ++ [93]).
+          rewrite <- !app_assoc. reflexivity. }
+        rewrite E in H. exact H.
+    + (* object *)
+      destruct l as [|x l'].
+      * exists (JObj []). split; [constructor; constructor|].
+        split; [exact (case_obj_empty cf d [] ws_nil)|].
+        eexists _, _. split; [reflexivity|unfold vstart; tauto].
+      * apply okf_obj in OK. destruct OK as [ND OK].
+        pose proof (nesting_obj_inv _ _ HN) as HL.
+        assert (FA : Forall (fun kv => exists kw, fst kw = fst kv /\ bytes_ok (fst kv) /\
+                               close (snd kv) (snd kw) /\
+                               PvH cf d (ser_pretty cf (nest + 1) (snd kv)) (snd kw)) (x :: l')).
+        { apply (Forall_and2 _ _ _ _ _ (fun kv A B =>
+             match IH (snd kv) (nest + 1)%Z A (proj2 B) with
+             | ex_intro _ w (conj C P) => ex_intro _ (fst kv, w) (conj eq_refl (conj (proj1 B) (conj C P)))
+             end) HL OK). }
+        destruct (Forall_exists_Forall2 _ _ _ _ FA) as [m FM].
+        exists (JObj m). split.
+        { constructor. revert FM. apply Forall2_imp. intros a b [E [_ [H _]]]. auto. }
+        assert (FP : Forall2 (fun kv kw => fst kw = fst kv /\ bytes_ok (fst kv) /\
+                                PvH cf d (ser_pretty cf (nest + 1) (snd kv)) (snd kw)) (x :: l') m).
+        { revert FM. apply Forall2_imp. intros a b [E [B [_ H]]]. auto. }
+        pose proof (PvH_obj2 cf DU d (ser_pretty cf (nest + 1)) crlf (indent (nest + 1)) [32] (crlf ++ indent nest)
+                      ws_crlf (ws_indent _) ltac:(repeat constructor) (ws_app _ _ ws_crlf (ws_indent _))
+                      (x :: l') m ltac:(discriminate) ND FP) as H.
+        assert (E : [123] ++ (crlf ++ join ([44] ++ crlf)
+                       (map (fun kv => indent (nest + 1) ++ write_string (fst kv) ++ [58] ++ [32] ++
+                                       ser_pretty cf (nest + 1) (snd kv)) (x :: l'))
+                       ++ crlf ++ indent nest) ++ [125]
+                    = ser_pretty cf nest (JObj (x :: l'))).
+        { change (ser_pretty cf nest (JObj (x :: l'))) with
+            ([123] ++ crlf ++ join ([44] ++ crlf)
+               (map (fun kv => indent (nest + 1) ++ write_string (fst kv) ++ [58; 32] ++
+                               ser_pretty cf (nest + 1) (snd kv)) (x :: l'))
+               ++ crlf ++ indent nest ++ [125]).
+          rewrite <- !app_assoc. reflexivity. }
+        rewrite E in H. exact H.
+Qed.
+
+Theorem pretty_parse_roundtrip_close : forall cf, decode_unicode cf = true -> use_double cf = true ->
+  forall v nest, ser_ok_floats v -> forall L fuel s rest,
+    (nesting v <= L)%nat -> good s -> stream s = ser_pretty cf nest v ++ rest -> delimiter cf rest ->
+    (length (ser_pretty cf nest v ++ rest) < fuel)%nat ->
+    exists w s', parse_variant cf fuel L None s = (Ok, w, s') /\ post s' rest /\ close v w.
+Proof.
+  intros cf DU UD v nest OK L fuel s rest HN G S D LF.
+  destruct (ser_pretty_PvH_close cf DU UD (nesting v) v nest (le_n _) OK) as [w [C [H _]]].
+  destruct (H L fuel s [] rest ws_nil HN G S D LF) as (s' & E & P & _).
+  exists w, s'. auto.
+Qed.
+
+Theorem json_pretty_roundtrip_close : forall cf, decode_unicode cf = true -> use_double cf = true ->
+  forall v nest, ser_ok_floats v -> forall L, (nesting v <= L)%nat ->
+  exists w, j_err (json_run cf None L (ser_pretty cf nest v)) = Ok /\
+            j_doc (json_run cf None L (ser_pretty cf nest v)) = w /\ close v w.
+Proof.
+  intros cf DU UD v nest OK L HN.
+  destruct (ser_pretty_PvH_close cf DU UD (nesting v) v nest (le_n _) OK) as [w [C [H _]]].
+  destruct (json_run_of_Pv cf _ _ _ H L HN) as [E1 E2].
+  exists w. auto.
+Qed.
+
+(* float-free documents: [close] is equality, so the theorems above contain JsonSerRT's *)
+Lemma close_nofloat : forall v w, nofloat v -> close v w -> v = w.
+Proof.
+  fix IH 1. intros v w NF C. destruct v as [|b|z|f|f|s|r|l|l]; cbn [nofloat] in NF; try contradiction;
+    inversion C as [| | | | | |l0 m F|l0 m F]; subst; try reflexivity.
+  - f_equal. apply nofloat_arr in NF. clear C. revert m F.
+    induction l as [|x l IHl]; intros m F; inversion F; subst; [reflexivity|].
+    inversion NF; subst. f_equal; [apply IH; assumption | apply IHl; assumption].
+  - f_equal. apply nofloat_obj in NF. destruct NF as [_ NF]. clear C. revert m F.
+    induction l as [|x l IHl]; intros m F; inversion F as [|? y ? ? [E Cx] F']; subst; [reflexivity|].
+    inversion NF as [|? ? [_ Nx] NF']; subst. f_equal; [|apply IHl; assumption].
+    destruct x as [k v], y as [k' w']. cbn [fst snd] in *. subst k'. f_equal. apply IH; assumption.
+Qed.
+
+(* ---- the hypotheses are satisfiable: a sample document with floating-point leaves ---- *)
+Definition d_0_1 : spec_float := S754_finite false 7205759403792794 (-56).     (* the double 0.1 *)
+Definition f_1_5 : spec_float := S754_finite false 12582912 (-23).             (* the float 1.5 *)
+
+Definition sample_doc_floats : jv :=
+  JObj [([97], JArr [JDouble d_0_1; JFloat f_1_5; JDouble (S754_zero true); JInt (-5); JNull]);
+        ([98], JStr [104; 105])].
+
+Lemma d_0_1_window : (p10 (-299) <= Rabs (sfr d_0_1) <= p10 299)%R.
+Proof.
+  unfold d_0_1.
+  pose proof (num_den_spec 7205759403792794 (-56)) as S1.
+  destruct (num_den 7205759403792794 (-56)) as [N1 D1] eqn:ND1. destruct S1 as [_ S1].
+  assert (N1 = 7205759403792794 /\ D1 = 72057594037927936)%Z as [-> ->]
+    by (vm_compute in ND1; inversion ND1; split; reflexivity).
+  rewrite S1. rewrite Rabs_pos_eq by lra.
+  assert (p10 (-299) <= 1e-6)%R by (rewrite <- p10_m6; apply p10_mono; lia).
+  assert (1 <= p10 299)%R by (rewrite <- p10_0; apply p10_mono; lia).
+  lra.
+Qed.
+
+Lemma sample_doc_floats_ok : ser_ok_floats sample_doc_floats.
+Proof.
+  apply okf_obj. split.
+  - repeat constructor; cbn [In]; intuition discriminate.
+  - constructor; [|constructor; [|constructor]].
+    + split; [repeat constructor; cbn; lia|]. cbn [snd]. apply okf_arr.
+      constructor; [|constructor; [|constructor; [|constructor; [|constructor; [|constructor]]]]].
+      * split; [vm_compute; reflexivity|]. split; [reflexivity|]. right. exact d_0_1_window.
+      * split; [vm_compute; reflexivity | reflexivity].
+      * split; [vm_compute; reflexivity|]. split; [reflexivity|]. left. reflexivity.
+      * cbn. lia.
+      * exact Logic.I.
+    + split; [repeat constructor; cbn; lia|]. cbn. repeat constructor; lia.
+Qed.
+
+Example sample_floats_roundtrip :
+  exists w, j_err (json_run default_cfg None 2 (ser default_cfg sample_doc_floats)) = Ok /\
+            j_doc (json_run default_cfg None 2 (ser default_cfg sample_doc_floats)) = w /\
+            close sample_doc_floats w.
+Proof. exact (json_roundtrip_close default_cfg eq_refl eq_refl _ sample_doc_floats_ok 2%nat (le_n _)). Qed.
+
+(* what comes back: 0.1 as the binary32 0.1, 1.5 unchanged, -0.0 as the integer 0 *)
+Example sample_floats_value :
+  ser default_cfg sample_doc_floats =
+    [123; 34; 97; 34; 58; 91; 48; 46; 49; 44; 49; 46; 53; 44; 48; 44; 45; 53; 44; 110; 117; 108; 108; 93;
+     44; 34; 98; 34; 58; 34; 104; 105; 34; 125] /\
+  j_doc (json_run default_cfg None 2 (ser default_cfg sample_doc_floats)) =
+    JObj [([97], JArr [JFloat (S754_finite false 13421773 (-27)); JFloat f_1_5; JInt 0; JInt (-5); JNull]);
+          ([98], JStr [104; 105])].
+Proof. split; vm_compute; reflexivity. Qed.
+
+(* a binary32 value needs no window: every finite non-zero one is in [1e-299, 1e299] *)
+Corollary float_roundtrip_close_any : forall c x, use_double c = true ->
+  valid F32 x -> FloatModel.is_finite x = true -> sfr x <> 0%R ->
+  jnumber (write_f32 c x) /\ (length (write_f32 c x) <= 24)%nat /\
+  exists v, jv_of_number c (parse_number c (write_f32 c x)) = Some v /\ close32 x v.
+Proof.
+  intros c x UD Vx Fx NZ. apply float_roundtrip_close; try assumption.
+  apply f32_in_window; assumption.
 Qed.
